@@ -56,6 +56,8 @@ def gen_cases(tier: str, seed: int) -> List[Dict[str, Any]]:
         cases.append({"kind": "prog", "seed": derive_seed(seed, PROPERTY, i) % (2**31), "fmt": name, "fwd": f, "bwd": b,
                       "profile": {"dtype": "float32", "max_ops": rng.choice([1, 3, 6, 12]), "residual": rng.choice([0, 0, 1, 2]),
                                   "forms": [x for x in FORMS if rng.random() < 0.5], "quant_focus": rng.random() < 0.7}})
+    for i in range(4 if q else 40):
+        cases.append({"kind": "repeat", "seed": derive_seed(seed, PROPERTY, "repeat", i) % (2**31), "n": 12})
     for i in range(8 if q else 120):
         rng = rng_for(seed, PROPERTY, "root", i)
         name, f, b = _fmt_specs(rng)
@@ -100,6 +102,8 @@ def run_case(case: Dict[str, Any], ctx) -> None:
     ctx.count("evaluations")
     if case["kind"] == "prim":
         return run_prim(case, ctx)
+    if case["kind"] == "repeat":
+        return run_repeat(case, ctx)
     import torch
     import torch._dynamo
     from torch import fx
@@ -250,6 +254,45 @@ def run_case(case: Dict[str, Any], ctx) -> None:
                 ctx.count("fx-path:not-applicable")
     if has_q and fmt_name != "lossless":
         ctx.nontrivial(src + "|" + fmt_name + str(case.get("fwd")) + str(case.get("bwd")))
+
+
+def run_repeat(case, ctx) -> None:
+    """History: the N-th transformed instance of the SAME module class in one process must still be quantised (TorchDynamo keeps
+    per-code-object state across transforms)."""
+    import torch
+    from unit_scaling.formats import FPFormat
+    from unit_scaling.transforms import simulate_format
+    from .. import progs
+    from ..instruments import pinned_randint, shape_keyed_randint
+
+    rng = rng_for(case["seed"], "prog")
+    prog = progs.gen_program(rng, {"dtype": "float32", "max_ops": 2, "residual": 1, "forms": [], "quant_focus": True})
+    n_q = sum(1 for o in prog["ops"] if o["op"] in ("linear_f", "nn_linear", "sdpa"))
+    if n_q == 0:
+        ctx.skip("no linear / attention op")
+        return
+    fwd, bwd = FPFormat(4, 3, "nearest"), FPFormat(5, 2, "nearest")
+    inputs = progs.make_inputs(prog, case["seed"] + 5)
+    for k in range(case["n"]):
+        m, src = progs.build_module(prog, case["seed"] + k)
+        try:
+            sim = simulate_format(m, fwd, bwd)
+            with QuantLog() as qlog, pinned_randint(shape_keyed_randint):
+                out = sim(*[t.clone() for t in inputs])
+        except Exception as e:
+            ctx.violation("C15:transformed-module-raises:" + exc_key(e), f"instance #{k + 1}: {e!r}", source=src)
+            return
+        outs = list(out) if isinstance(out, (tuple, list)) else [out]
+        pref = {k2: v.detach() for k2, v in sim.named_parameters()}
+        with torch.no_grad(), pinned_randint(shape_keyed_randint):
+            outs_r, _ = progs.interpret(prog, pref, [t.clone() for t in inputs], "plain", quant=progs.Quant(fwd, bwd))
+        ctx.count("history:instances-of-one-class-transformed")
+        bad = any(float((a.detach() - b).abs().max()) > 1e-5 * max(float(b.abs().max()), 1e-30) for a, b in zip(outs, outs_r))
+        if not qlog.calls or bad:
+            ctx.violation("C15:quantisation-lost-after-many-transformed-instances-of-one-class",
+                          f"instance #{k + 1} of the same module class: {'no quantise call' if not qlog.calls else 'values differ from the quantised reference'}", source=src)
+            return
+    ctx.nontrivial(f"repeat|{src}")
 
 
 def explain(prog, params, inputs, outs_u, gu, names, ups, fwd, bwd, root_case, case, m) -> str:
